@@ -716,6 +716,16 @@ class Frame:
             return
         if isinstance(obj, (SBuf, SZeros)):
             raise Unsupported("store into a symbolic-length buffer")
+        if isinstance(obj, dict) and isinstance(idx, (int, SInt)) and not isinstance(idx, (bool, SBool)) and \
+                (isinstance(idx, SInt) or any(isinstance(k, SInt) for k in obj)):
+            # integer keys compared by value: overwrite the entry whose key equals idx, else a new entry
+            self.I.ctx.writes.append((obj, "setitem", None))
+            for k in list(obj.keys()):
+                if isinstance(k, (int, SInt)) and not isinstance(k, (bool, SBool)) and self.I.truth(V.compare("==", idx, k)):
+                    obj[k] = v
+                    return
+            obj[idx] = v
+            return
         if is_sym(idx) and isinstance(obj, (dict, list)) and not (isinstance(obj, dict) and isinstance(idx, SOpaque)):
             raise Unsupported("store with symbolic key")
         obj[idx] = v
@@ -1022,6 +1032,8 @@ class Frame:
             raise Unsupported("this subscript of a symbolic string")
         if isinstance(idx, (SInt, SBool)):
             return self.sym_lookup(obj, idx)
+        if isinstance(obj, dict) and isinstance(idx, int) and any(isinstance(k, SInt) for k in obj):
+            return self.sym_lookup(obj, idx)  # a dictionary that holds symbolic keys: compared by value
         if isinstance(idx, SStr):
             raise Unsupported("symbolic string key")
         if isinstance(idx, SOpaque):
@@ -1030,6 +1042,12 @@ class Frame:
 
     def sym_lookup(self, obj, idx):
         """container[symbolic integer]"""
+        if isinstance(obj, dict) and any(isinstance(k, SInt) for k in obj):
+            # keys stored symbolically (see store): the first key equal in value, in insertion order
+            for k in list(obj.keys()):
+                if isinstance(k, (int, SInt)) and not isinstance(k, (bool, SBool)) and self.I.truth(V.compare("==", idx, k)):
+                    return obj[k]
+            raise KeyError(idx)
         if isinstance(obj, dict):
             ks = [k for k in obj.keys() if isinstance(k, int) and not isinstance(k, bool)]
             present = self.I.contains(obj, idx) if ks else False
@@ -1050,7 +1068,10 @@ class Frame:
             return SOpaque("table-lookup-text" if all(isinstance(v, str) for v in vals) else "table-lookup", obj, idx)
         if isinstance(obj, (list, tuple, range, bytes, bytearray, str)):
             n = len(obj)
-            i = self.I.ctx.concretize(idx, limit=max(16, n + 1))
+            # CPython: valid indices are -n .. n-1, everything else raises IndexError
+            if not self.I.truth(V.band(V.compare(">=", idx, -n), V.compare("<", idx, n))):
+                raise IndexError("%s index out of range" % type(obj).__name__)
+            i = self.I.ctx.concretize(idx, limit=max(16, 2 * n + 1))
             return obj[i]
         raise Unsupported("symbolic index into %s" % type(obj).__name__)
 
